@@ -15,7 +15,7 @@ from gens import atoms_of, base_cells, make_supercell, random_dataset, tables
 from permcorr import coq_near, fake_cutoff, random_near
 from tensors import full_basis_tensors, sum_rule_residual
 
-UNITS = ["SolverStruct", "BatchGen", "EigStruct", "ShapesO1", "ShapesBasis", "ShapesSumRule", "ShapesAuxO1", "ShapesAuxEig", "ShapesAuxBatch", "ShapesAuxRot", "SkelBasis", "SkelEig", "SkelMat", "ShapesPerm", "SkelPerm", "ShapesApi", "SkelApi", "ShapesSolvers", "SkelSolvers", "IndepGen", "ShapesSpg", "ShapesReps", "SkelSpg"]
+UNITS = ["SolverStruct", "BatchGen", "EigStruct", "ShapesO1", "ShapesBasis", "ShapesSumRule", "ShapesAuxO1", "ShapesAuxEig", "ShapesAuxBatch", "ShapesAuxRot", "SkelBasis", "SkelEig", "SkelMat", "ShapesPerm", "SkelPerm", "ShapesApi", "SkelApi", "ShapesSolvers", "SkelSolvers", "IndepGen", "ShapesSpg", "ShapesReps", "SkelSpg", "Tables", "ShapesCombos", "ShapesCoset", "CutoffGen", "ShapesGeom", "ShapesAuxCut", "SkelIdx", "SkelCut"]
 PROPS = ["props/C03.v"]
 EXTRA = ["theories/SumRule.vo"]
 ASSUMPTIONS = ["eigen-solver selection of the unit eigenspace is C15's subject (oracle: numpy eigh); sums are checked to 1e-9 relative to the largest element"]
